@@ -101,6 +101,20 @@ def resolves(kind, ver, name, cls):
         return False
     if not isinstance(o, cls):
         return False
+    # no version named: content of this type is recognised as the version it is written in (spec_version member for 2.1 objects, an id for 2.1
+    # observables) and resolves to the same class -- as dictionary, JSON text and bundle member.  Skipped where the other version knows the name
+    # too (the detection rule then has two candidates: not part of this claim).
+    other = "2.0" if ver == "2.1" else "2.1"
+    clash = any(name in registry.STIX2_OBJ_MAPS[other][k] for k in ("objects", "observables"))
+    if not clash and (kind == "objects" or ver == "2.1"):
+        try:
+            forms = [stix2.parse(dict(d)), stix2.parse(json.dumps(d))]
+            if ver == "2.1":
+                forms.append(stix2.parse({"type": "bundle", "id": "bundle--311b2d2d-f010-4473-83ec-1edf84858f4c", "objects": [dict(d)]})["objects"][0])
+        except (ParseError, STIXError, ValueError):
+            return False
+        if not all(isinstance(x, cls) for x in forms):
+            return False
     if kind == "objects":
         again = stix2.parse(o.serialize(), version=ver)
         return again == o and isinstance(again, cls) and o.new_version(prop_one="w")["prop_one"] == "w"
@@ -111,6 +125,10 @@ def run_history(steps):
     """steps: list of (op, kind idx, version idx, name idx); op 0 = register, 1 = parse/lookup only"""
     saved = snapshot()
     try:
+        # the library has been in use before this history starts (content of both versions parsed without naming a version)
+        stix2.parse({"type": "identity", "id": "identity--311b2d2d-f010-4473-83ec-1edf84858f4c", "created": "2020-01-01T00:00:00.000Z",
+                     "modified": "2020-01-01T00:00:00.000Z", "name": "n", "identity_class": "individual"})
+        stix2.parse({"type": "file", "id": "file--311b2d2d-f010-4473-83ec-1edf84858f4c", "name": "f"})
         model = {}
         for ver in VERS:
             for kind in KINDS:
